@@ -24,7 +24,7 @@ ASSUMPTIONS = [
     "'labels joined in time order' = by start time; entries with equal start may be joined in either order",
     "union's span is the hull of A's span and B's entries (C11: grows just enough); only checked to contain everything and to validate",
 ]
-REQUIRED_CLASSES = ["pairs_grid:overlap", "pairs_grid:touching", "pairs_grid:nested", "pairs_random:identical"]
+REQUIRED_CLASSES = ["pairs_grid:overlap", "pairs_grid:touching", "pairs_grid:nested", "pairs_random:identical", "pairs_random:nanosecond_offset"]
 
 
 def _ents(spec):
@@ -46,6 +46,8 @@ def classify(A, B):
                     cl.append("nested")
             elif e == bs or be == s:
                 cl.append("touching")
+            if 0 < abs(s - bs) < 1e-8 or 0 < abs(e - be) < 1e-8:
+                cl.append("nanosecond_offset")
     return sorted(set(cl))
 
 
@@ -257,7 +259,11 @@ def pair_cases(draw):
         B = dict(A, name="B")
     elif r <= 3:
         # B built from A's boundaries (touching / nested / shared edges)
-        bs = sorted({t for e in A["entries"] for t in e[:2]} | set(draw(gen.boundaries(style, 3))))
+        bs = {t for e in A["entries"] for t in e[:2]} | set(draw(gen.boundaries(style, 3)))
+        if style != "grid" and draw(st.booleans()):
+            # edges a few nanoseconds inside A's entries: labelled slivers are labelled time too
+            bs |= {t + 5e-9 for e in A["entries"] for t in e[:1]} | {t - 5e-9 for e in A["entries"] for t in e[1:2] if t > 1e-6}
+        bs = sorted(bs)
         ents = []
         i = 0
         while i < len(bs) - 1:
